@@ -276,6 +276,96 @@ def impl(case):
     return res
 
 
+# ------------------------------------------------------------------ ConnTypes.check_instance against its Lean model
+
+def gen_conntypes(rng):
+    """One instance of an external module: ports of widths 1-3, connections with any mix of the three faults (or none)."""
+    names = rng.sample(["p", "n", "g", "d", "q", "en"], rng.randint(1, 5))
+    io = [[nm, rng.choice([1, 1, 2, 3])] for nm in names]
+    conns = []
+    for nm, w in io:
+        r = rng.random()
+        if r < 0.12:
+            continue  # missing
+        ww = w if r < 0.8 else rng.choice([x for x in (1, 2, 3, 4) if x != w])
+        kind = rng.choice(["sig", "slice", "concat"])
+        if kind == "sig":
+            c = {"k": "sig", "n": f"s{ww}", "w": ww}
+        elif kind == "slice":
+            a = rng.randint(0, 5 - ww)
+            c = {"k": "slice", "p": {"k": "sig", "n": "big", "w": 5}, "i": {"s": a, "e": a + ww, "st": None} if ww > 1 or rng.random() < 0.5 else {"i": a}}
+        else:
+            k = rng.randint(1, ww) if ww > 1 else 1
+            parts = [{"k": "sig", "n": f"s{k}", "w": k}] + ([{"k": "slice", "p": {"k": "sig", "n": "big", "w": 5}, "i": {"s": 0, "e": ww - k, "st": None}}] if ww > k else [])
+            c = {"k": "concat", "ps": parts}
+        conns.append([nm, c])
+    for extra in rng.sample(["zz", "p2", "vss"], rng.choice([0, 0, 0, 1, 2])):
+        conns.append([extra, {"k": "sig", "n": "s1", "w": 1}])
+    rng.shuffle(conns)
+    return {"io": io, "conns": conns}
+
+
+def impl_conntypes(case):
+    import re
+
+    E = h.ExternalModule(name="Ect", port_list=[h.Port(name=nm, width=w) for nm, w in case["io"]], paramtype=h.HasNoParams)
+    m = h.Module(name="CtTop")
+    sigs = {f"s{w}": m.add(h.Signal(name=f"s{w}", width=w)) for w in (1, 2, 3, 4)}
+    sigs["big"] = m.add(h.Signal(name="big", width=5))
+
+    def mk(c):
+        if c["k"] == "sig":
+            return sigs[c["n"]]
+        if c["k"] == "slice":
+            i = c["i"]
+            return mk(c["p"])[i["i"]] if "i" in i else mk(c["p"])[i["s"]:i["e"]]
+        return h.Concat(*[mk(p) for p in c["ps"]])
+
+    inst = h.Instance(of=E(), name="x")
+    for nm, c in case["conns"]:
+        inst.connect(nm, mk(c))
+    m.add(inst)
+    try:
+        h.elaborate(m)
+        return {"passes": True}
+    except RuntimeError as ex:
+        msg = str(ex)
+        if "Invalid connections" not in msg:
+            return {"other_error": msg[-300:]}
+        body = msg[msg.index("Invalid connections"):]
+        st = {}
+        for nm in re.findall(r"Missing connection to Port `(\w+)`", body):
+            st[nm] = "unconnected"
+        for nm in re.findall(r"Connection to non-existent Port `(\w+)`", body):
+            st[nm] = "noport"
+        for nm in re.findall(r"'(\w+)': Signals ", body):
+            st[nm] = "invalid"
+        return {"passes": False, "bad": st}
+
+
+def line_conntypes(case):
+    return {"prop": "CT", "op": "check", "io": case["io"], "conns": case["conns"]}
+
+
+def judge_conntypes(case, im, mo):
+    if "other_error" in im:
+        yield ("corr", f"elaboration failed elsewhere: {im['other_error']}")
+        return
+    want_bad = {nm: s for nm, s in mo["statuses"] if s != "valid"}
+    faulty = bool(want_bad)
+    if im["passes"] and faulty:
+        yield ("pred", f"an instance with connection faults {want_bad} was accepted")
+    elif not im["passes"] and not faulty:
+        yield ("corr", f"a well-connected instance was refused: {im.get('bad')}")
+    elif not im["passes"] and im["bad"] != want_bad:
+        yield ("corr", f"reported faults {im['bad']} vs model {want_bad}")
+    if mo["passes"] != (not faulty):
+        yield ("corr", "model inconsistent")
+
+
+SCT = common.Stream("conntypes", impl_conntypes, line_conntypes, judge_conntypes, chunk=16)
+
+
 def run(ctx):
     rep, rng = ctx.rep, ctx.rng
     rep.extra["rule"] = (
@@ -324,6 +414,7 @@ def run(ctx):
             rep.fail("pred", {"stream": "mutants", "case": {"class": "generated", "site": "-", "design": c["design"]}},
                      {"why": f"ill-formed generated design ({o['src']['error']}) accepted by {returned}", "impl": im})
     rep.extra["by_class"] = by_class
+    SCT.run(ctx, [gen_conntypes(rng) for _ in range(300 if ctx.quick else 6000)])
     rep.extra["bases"] = len(valid)
     rep.extra["model_accepts_mutant"] = len(muts) - len(ill)
     if ill:
